@@ -193,6 +193,9 @@ Create ==
     \/ \E n \in Names, t \in Vals : CreateNamed("block", FILE, n, t)
     \/ \E b \in objs, k \in { "group", "array", "tag" }, n \in Names, t \in Vals :
           Kind(b) = "block" /\ CreateNamed(k, b, n, t)
+    \* an array may carry the very name create_multi_tag derives for its helper arrays
+    \/ ("mtagauto" \in Ops /\ \E b \in objs, n \in Names, t \in Vals :
+          Kind(b) = "block" /\ (CreateNamed("array", b, PosName(n), t) \/ CreateNamed("array", b, ExtName(n), t)))
     \/ \E p \in objs, n \in Names, t \in Vals : Kind(p) \in { "block", "source" } /\ CreateNamed("source", p, n, t)
     \/ \E p \in objs \cup {FILE}, n \in Names, t \in Vals : Kind(p) \in { "file", "section" } /\ CreateNamed("section", p, n, t)
     \/ \E b \in objs, n \in Names, t \in Vals, pos \in objs, ext \in objs \cup {None} : CreateMTag(b, n, t, pos, ext)
